@@ -132,7 +132,8 @@ class _NtMethod:
 
 
 class GenResult(list):
-    """Values produced by a generator function (evaluated eagerly)."""
+    """Values a one-shot iterator still has to produce (generator functions and expressions, zip, map, filter, enumerate,
+    reversed, itertools.*; evaluated eagerly).  Iterating it (Interp.iterate, next) consumes it, as in Python."""
 
     context_manager = False
 
@@ -742,6 +743,11 @@ class Interp:
         return bool(v)
 
     def iterate(self, v, node) -> list:
+        if isinstance(v, GenResult):
+            # a one-shot iterator (generator, zip, map, itertools.product, ...): whoever iterates it, empties it
+            items = list(v)
+            v.clear()
+            return items
         if isinstance(v, range):
             return v  # lazily: a range read from corrupt data may be astronomically long
         if isinstance(v, list | tuple | set | frozenset | dict | str):
